@@ -425,8 +425,6 @@ where
                 return Ok(None);
             };
 
-            #[cfg(feature = "verif")]
-            crate::verif::point("F:read_open");
             (item, prepare(&item))
         };
 
